@@ -1,19 +1,30 @@
-"""property id -> engines whose results decide it, plus the MANIFEST texts.  bin/mkmanifest renders
-MANIFEST.json from this table so that the manifest can never drift from what bin/check runs."""
+"""property id -> engines whose results decide it, plus the MANIFEST texts.
 
-PROPS = {
-    "C13": ["gas"],
-}
+Every module checks/<engine>.py with READY = True is discovered; its SERVES dict maps each property
+it decides to the manifest texts (technique, level, note, ref).  bin/mkmanifest renders
+MANIFEST.json from this so the manifest cannot drift from what bin/check runs."""
+import importlib
+import os
+import pkgutil
 
-TEXT = {
-    "C13": dict(
-        technique="TLA+ spec Gas.tla model-checked by TLC; every (state, operation) edge of the model replayed on revm_interpreter::Gas and the projected meter compared (spec->impl conformance)",
-        level="TLC enumerates every reachable state of the gas-meter specification for two numeric domains (small numbers; numbers adjacent to u64::MAX / i64::MAX through an order- and difference-preserving embedding), checks the property's clauses as invariants/action properties of the specification, and prints every edge with the expected successor; the harness applies each edge's history and operation to the real Gas value and compares limit/remaining/spent/refunded and the charge result. Exhaustive for the bounded domain, so any change to the meter that alters one of these observables on a short history is detected.",
-        note="Trusted: Gas.tla as the statement of the property; the 60-line adapter harness/src/gas.rs. Assumes erase_cost is called with at most the amount charged and the final refund is computed from a non-negative recorded refund (the property's 'consistent with frame accounting'). Values between the neighbourhoods of 0 and of the type maximum are not explored.",
-        ref="DESIGN.md section 3, C13"),
-}
+PROPS = {}
+TEXT = {}
+_here = os.path.dirname(os.path.abspath(__file__))
+for _m in sorted(pkgutil.iter_modules([_here]), key=lambda m: m.name):
+    if _m.name in ("registry",):
+        continue
+    _mod = importlib.import_module("checks." + _m.name)
+    if not getattr(_mod, "READY", False):
+        continue
+    for _pid, _t in getattr(_mod, "SERVES", {}).items():
+        PROPS.setdefault(_pid, []).append(_m.name)
+        if _pid in TEXT:
+            for _k in ("technique", "level", "note"):
+                TEXT[_pid][_k] = TEXT[_pid][_k] + " || " + _t[_k]
+        else:
+            TEXT[_pid] = dict(_t)
 
-# properties not (yet) claimed -> reason.  Kept current by hand; bin/mkmanifest refuses overlap.
+# properties not (yet) claimed -> reason.
 NOT_APPLICABLE = {
     "C24": "agreement of two cryptographic backends is a differential test of two builds of external libraries; there is no state machine or specifiable function short of re-implementing secp256k1/KZG in TLA+ (DESIGN.md section 4)",
     "C26": "byte-exact EOF decode/encode round trip and validator/interpreter agreement are encode/decode fidelity; would need the 900-line EOF validator restated in TLA+ (DESIGN.md section 4)",
@@ -22,3 +33,6 @@ NOT_APPLICABLE = {
 for _p in ["C%02d" % i for i in range(1, 35)]:
     if _p not in PROPS and _p not in NOT_APPLICABLE:
         NOT_APPLICABLE[_p] = "not yet claimed: the specification/harness for this property is still being built (see DESIGN.md section 9 build order); no check is registered rather than registering an unsound one"
+for _p in list(NOT_APPLICABLE):
+    if _p in PROPS:
+        del NOT_APPLICABLE[_p]
